@@ -45,10 +45,67 @@ def generate(ctx):
     return d, doc, files
 
 
+def _genuine_compile_error(out):
+    """a diagnostic of the compiler about the code (not the compiler being killed / out of memory on the shared box,
+    not a link failure: those stay infrastructure failures)"""
+    if re.search(r"Killed signal|internal compiler error|virtual memory exhausted|No space left|cannot allocate memory|std::bad_alloc", out):
+        return False
+    return out.startswith("compile failed") and re.search(r" error: |fatal error:", out) is not None
+
+
+def _first_error(out):
+    for l in out.splitlines():
+        if " error: " in l or "fatal error:" in l:
+            return re.sub(r"\s+", " ", l)[:400]
+    return re.sub(r"\s+", " ", out[-400:])
+
+
 def build(ctx, files):
+    """Build the harness.  A generated translation unit (7 grammars x skippers over the combinators the statement
+    names, well-formed arguments) that no longer compiles against the tree under test is a verdict about the tree:
+    VIOLATION C02:grammars_tu<N>:does-not-compile; it is replaced by an empty stub and the other units are built,
+    run and judged as usual.  If c02_main.cpp (the recursive grammars through grammar / make_base) does not compile:
+    VIOLATION C02:recursive_grammars:does-not-compile and None is returned."""
     # the generated TUs dominate the cost (measured, g++ 12, ASan+UBSan: 17 s CPU per TU of 7 grammars x 2
     # skippers at -O1, 8 s at -O0): built at -O0, still with ASan+UBSan
-    return vlib.build_harness("c02_harness_%s_%d" % (ctx.tier, ctx.seed), ["c02_main.cpp"] + files, libs=("core",), opt="-O0")
+    files = list(files)
+    name = "c02_harness_%s_%d" % (ctx.tier, ctx.seed)
+    noise = 0
+    for _ in range(len(files) + 3):
+        try:
+            return vlib.build_harness(name, ["c02_main.cpp"] + files, libs=("core",), opt="-O0")
+        except vlib.Infra as e:
+            msg = str(e)
+            m = re.match(r"compile failed: (\S+)", msg)
+            if not m or not _genuine_compile_error(msg):
+                noise += 1
+                if noise > 1:
+                    raise
+                vlib.log("build failed for a reason that is not a compiler diagnostic, retrying once: %s" % msg[:200])
+                continue
+            src = m.group(1)
+            ctx.extra.setdefault("units_not_compiling", []).append({"unit": os.path.basename(src), "first_error": _first_error(msg)})
+            mt = re.search(r"c02_gen_(\d+)\.cpp$", os.path.basename(src))
+            if src in files and mt:
+                t = int(mt.group(1))
+                ctx.reject("C02:grammars_tu%d:does-not-compile" % t,
+                           "the generated grammars of translation unit %d (well-formed uses of the fcppt.parse combinators) do not "
+                           "compile against this tree: %s" % (t, _first_error(msg)),
+                           {"build": True, "unit": os.path.basename(src), "compiler_output_tail": msg[-2500:]})
+                stub = os.path.join(os.path.dirname(src), "stub_tu_%d.cpp" % t)
+                with open(stub, "w") as f:
+                    f.write('#include "c02_common.hpp"\nvoid c02_run_tu_%d(c02::runner &) {}\n' % t)
+                files[files.index(src)] = stub
+                continue
+            if src.startswith(vlib.REPO):
+                # a library source of the tree under test does not build: the tree's own build is broken
+                raise
+            ctx.reject("C02:recursive_grammars:does-not-compile",
+                       "the harness' recursive grammars / entry points (%s) do not compile against this tree: %s" % (
+                           os.path.basename(src), _first_error(msg)),
+                       {"build": True, "unit": os.path.basename(src), "compiler_output_tail": msg[-2500:]})
+            return None
+    raise vlib.Infra("the C02 harness could not be built")
 
 
 JSON_EXTRA = ['[null]', '[true,false]', '[ 1 , -2 ]', '{"a":1}', '{"a":1,"a":2}', '{"a":{"b":[1,{"c":null}]}}', '[[[[]]]]', '[1,]', '[,1]',
@@ -66,7 +123,25 @@ def write_inputs(path, std, jsn):
 
 
 def judge_file(ctx, path, gpath, what, rc, out, doc):
-    lines, tail = vlib.check_trace_file(path)
+    try:
+        lines, tail = vlib.check_trace_file(path)
+    except OSError:
+        lines, tail = [], None      # the process died before it opened its log
+    # only records of the shape the judge reads reach TLC (not vjson's crash marker, not a line that happens to be
+    # JSON without being a record)
+    recs = []
+    for x in lines:
+        try:
+            r = json.loads(x)
+        except ValueError:
+            continue
+        if isinstance(r, dict) and r.get("f") == "parse" and "exc" in r:
+            recs.append(x)
+    dirty = len(recs) != len(lines)
+    lines = recs
+    if dirty and rc == 0:
+        with open(path, "w") as fh:
+            fh.write("\n".join(lines) + ("\n" if lines else ""))
     if rc != 0:
         g = sk = "?"
         if tail:
@@ -78,7 +153,10 @@ def judge_file(ctx, path, gpath, what, rc, out, doc):
         payload = {"partial_line": tail}
         m = re.search(r'"s":(\[[^\]]*\])', tail or "")
         if m and g != "?":
-            payload.update({"g": int(g), "sk": sk, "s": json.loads(m.group(1))})
+            try:
+                payload.update({"g": int(g), "sk": sk, "s": json.loads(m.group(1))})
+            except ValueError:
+                pass
         m2 = re.search(r'"e":"(\w+)"', tail or "")
         if m2 and m2.group(1) != "string":
             # a crash inside an observed-only entry point is an observation, not a verdict
@@ -197,6 +275,9 @@ def run(ctx):
     ctx.extra.setdefault("vacuity_guards", []).append({"cfg": "MC_PegJson_bug.cfg", "violates": "JsonAgree", "states": r.distinct})
     # 2. the real code
     binary = build(ctx, files)
+    if binary is None:
+        ctx.rule = "the harness does not compile against the tree under test: nothing was run"
+        return
     maxlen = 5 if thorough else 4
     # the harness is single-threaded: run it as independent processes over disjoint sets of TUs
     nsh = 8 if thorough else 4
@@ -266,6 +347,11 @@ def replay(ctx, payload):
     gpath = os.path.join(d, "grammars.json")
     binary = build(ctx, files)
     p = payload["payload"]
+    if binary is None or p.get("build"):
+        ctx.rule = "replay of a build verdict"
+        ctx.count_class("replay")
+        ctx.count_class("replay2")
+        return
     if "g" not in p:
         raise vlib.Infra("replay payload names no grammar/input")
     ipath = os.path.join(ctx.workdir, "replay_input.ndjson")
